@@ -143,10 +143,9 @@ func (r *LogoutRequest) UnmarshalXML(d *xml.Decoder, start xml.StartElement) err
 // Bytes returns a byte array representation of the LogoutRequest
 func (r *LogoutRequest) Bytes() ([]byte, error) {
 	doc := etree.NewDocument()
-	doc.WriteSettings = canonicalWriteSettings
 	doc.SetRoot(r.Element())
 
-	buf, err := doc.WriteToBytes()
+	buf, err := serializeDocument(doc)
 	if err != nil {
 		return nil, err
 	}
